@@ -186,8 +186,8 @@ func (u Unit) Bytes() []byte {
 
 // PES is one PES packet of an elementary stream.
 type PES struct {
-	PTS       int64  `json:"pts"`                  // 90 kHz
-	DataID    byte   `json:"data_id,omitempty"`    // data_identifier, 0 = 0x10
+	PTS       int64  `json:"pts"`               // 90 kHz
+	DataID    byte   `json:"data_id,omitempty"` // data_identifier, 0 = 0x10
 	Units     []Unit `json:"units,omitempty"`
 	NoPayload bool   `json:"no_payload,omitempty"` // PES packet without a single payload byte
 	Tail      []byte `json:"tail,omitempty"`       // raw bytes after the last unit
